@@ -6,6 +6,7 @@ def _jobs(tier):
     jobs = []
     for k in range(1, 17):
         jobs.append(dict(sub="box", count=geo(k, 1500, 6, 8) * mult, fix=dict(k=k)))
+        jobs.append(dict(sub="box", count=geo(k, 400, 6, 3) * mult, fix=dict(k=k), flavour="asan"))
     for k in range(1, 7):
         jobs.append(dict(sub="large", count=60 * mult, fix=dict(k=k)))
     return jobs
